@@ -610,3 +610,128 @@ def counters_reset(ctx):
     ctx.assume("A1", "A4", "A6", "A7")
     from contracts.C01 import junction_accumulators_reset
     junction_accumulators_reset(ctx, ["EXT_GRID_OCCURENCE", "EXT_GRID_OCCURENCE_T"])
+
+
+# ---------------------------------------------------------------------------------------------
+# which rows reach the fixed-value averaging: exactly the in-service rows of the pressure-fixing tables
+
+EGM = CM + "ext_grid_component"
+
+
+def _fixing_rows(ctx, label, key, cref, tname, cols, jcol, vcols):
+    """the (junction, type, value) triples handed to set_fixed_node_entries are those of the rows whose
+    active identifier (in_service) is True, and the slack-mass marking goes to the nodes returned for mode 'p'"""
+    n = z3.Int("NFIX")
+    calls = []
+
+    def c_fixed(ev, args, kwargs):
+        calls.append(args)
+        cnt = fresh("nfixed", "int")
+        uf = z3.Function("fixed_nodes!%d" % next(V._counter), z3.IntSort(), z3.IntSort())
+        out = Arr(cnt, lambda j: uf(V.I(j)), "i")
+        out.fixed_mode = args[6]
+        return out
+
+    def mk():
+        del calls[:]
+        net = K.NetObj({tname: K.sym_table(tname, n, cols)})
+        return [cref, net, K.sym_pit("node_pit", z3.Int("NN"), NCN)], {}
+    paths = T.run_paths(ctx, key, mk, contracts={CT + ":set_fixed_node_entries": c_fixed})
+    ok = len(paths) == 1 and paths[0].exc is None and len(calls) >= 1
+    ctx.decided("%s/single-path-reaches-the-averaging" % label, "cover", ok, witness=str([str(p.exc) for p in paths]))
+    if not ok:
+        return
+    tbl = K.sym_table(tname, n, cols)
+    r = z3.Int("r")
+    modes = sorted(str(a[6]) for a in calls)
+    ctx.decided("%s/modes" % label, "ensures", modes == sorted(vcols), witness="modes %s, expected %s" % (modes, sorted(vcols)))
+    for a in calls:
+        mode = str(a[6])
+        junc, types, vals = a[2], a[3], a[4]
+        comp = all(isinstance(x, Comp) for x in (junc, types, vals))
+        ctx.decided("%s/%s/arguments-are-row-selections" % (label, mode), "ensures", comp,
+                    witness="set_fixed_node_entries receives unfiltered columns: %r" % ([type(x).__name__ for x in (junc, types, vals)],))
+        if not comp or mode not in vcols:
+            continue
+        base = [n >= 1, r >= 0, r < n] + list(paths[0].facts) + [paths[0].cond()]
+        for nm, x in (("junctions", junc), ("types", types), ("values", vals)):
+            ctx.ob("%s/%s/%s-selected-iff-in-service" % (label, mode, nm), "ensures", base,
+                   B(x.mask.f(r)) == B(tbl.columns["in_service"].f(r)))
+        ctx.ob("%s/%s/row-values" % (label, mode), "ensures", base + [B(tbl.columns["in_service"].f(r))],
+               z3.And(K.eq_val(junc.f(r), tbl.columns[jcol].f(r)), K.eq_val(types.f(r), tbl.columns["type"].f(r)),
+                      K.eq_val(vals.f(r), tbl.columns[vcols[mode]].f(r))))
+
+
+@unit("C03", "fixing_rows/ext_grid", functions=[EGM + ":ExtGrid.create_pit_node_entries"], engine="E3")
+def fixing_rows_ext_grid(ctx):
+    ctx.assume("A1", "A4", "A6")
+    cref = S.get_module(EGM).classes["ExtGrid"]
+    _fixing_rows(ctx, "ext_grid", EGM + ":ExtGrid.create_pit_node_entries", cref, "ext_grid",
+                 {"in_service": "b", "type": "i", "junction": "i", "p_bar": "f", "t_k": "f"}, "junction",
+                 {"p": "p_bar", "t": "t_k"})
+
+
+@unit("C03", "fixing_rows/circ_pump", functions=[CPA + ":CirculationPump.create_pit_node_entries"], engine="E3")
+def fixing_rows_circ_pump(ctx):
+    ctx.assume("A1", "A4", "A6")
+    for mod, cname, tname in ((CPP, "CirculationPumpPressure", "circ_pump_pressure"), (CPM, "CirculationPumpMass", "circ_pump_mass")):
+        cref = S.get_module(mod).classes[cname]
+        _fixing_rows(ctx, cname, CPA + ":CirculationPump.create_pit_node_entries", cref, tname,
+                     {"in_service": "b", "type": "i", "flow_junction": "i", "return_junction": "i", "p_flow_bar": "f",
+                      "t_flow_k": "f"}, "flow_junction", {"p": "p_flow_bar"})
+
+
+# ---------------------------------------------------------------------------------------------
+# the component array handed to the adaption methods is the one aligned with the ACTIVE pit block
+
+@unit("C03", "component_array", functions=[CT + ":get_component_array"], engine="E3")
+def component_array(ctx):
+    """get_component_array(net, name) returns the rows of the component array whose elements are in the active
+    pit of the stage (order preserved) -- row k of the result belongs to row f + k of the active pit block; every
+    call site in the component models asks for exactly that array (requires@callsite)."""
+    ctx.assume("A4", "A6")
+    NC, fa, ta, NA = z3.Int("NCOMP"), z3.Int("f_all"), z3.Int("t_all"), z3.Int("NACT")
+    for mode in ("hydraulics", "heat_transfer"):
+        def mk(_m=mode):
+            net = K.NetObj({"_pit": {"components": {"pump": K.sym_pit("comp_array", NC, 8)}},
+                            "_lookups": {"branch_from_to": {"pump": (fa, ta)},
+                                         "branch_active_" + _m: K.sym_arr("active_" + _m, NA, "b")}})
+            return [net, "pump"], {"mode": _m}
+        paths = T.run_paths(ctx, CT + ":get_component_array", mk)
+        ok = len(paths) == 1 and paths[0].exc is None and isinstance(paths[0].result, PitComp)
+        ctx.decided("%s/returns-row-selection" % mode, "ensures", ok, witness=repr([getattr(p, "result", None) for p in paths]))
+        if not ok:
+            continue
+        res = paths[0].result
+        act = K.sym_arr("active_" + mode, NA, "b")
+        k = z3.Int("k")
+        ctx.ob("%s/selects-the-active-elements-of-the-block" % mode, "ensures",
+               [fa >= 0, fa <= ta, ta <= NA, NC == ta - fa, k >= 0, k < NC] + list(paths[0].facts),
+               B(res.mask.f(k)) == B(act.f(fa + k)))
+    # call sites
+    import os
+    bad, sites = [], 0
+    root = os.path.join(S.REPO, "src", "pandapipes", "component_models")
+    for dp, _, files in os.walk(root):
+        for fn_ in files:
+            if not fn_.endswith(".py"):
+                continue
+            tree = ast.parse(open(os.path.join(dp, fn_)).read())
+            for fdef in [x for x in ast.walk(tree) if isinstance(x, ast.FunctionDef)]:
+                for c in [x for x in ast.walk(fdef) if isinstance(x, ast.Call) and isinstance(x.func, ast.Name)
+                          and x.func.id == "get_component_array"]:
+                    if fdef.name == "get_component_array":
+                        continue
+                    sites += 1
+                    kw = {k_.arg: k_.value for k_ in c.keywords}
+                    want_mode = "heat_transfer" if fdef.name.endswith("_thermal") else "hydraulics"
+                    mode_ = kw["mode"].value if "mode" in kw and isinstance(kw["mode"], ast.Constant) else \
+                        ("hydraulics" if "mode" not in kw else None)
+                    name_ok = len(c.args) >= 2 and ast.unparse(c.args[1]) == "cls.table_name()"
+                    active_ok = "only_active" not in kw or (isinstance(kw["only_active"], ast.Constant) and kw["only_active"].value is True)
+                    type_ok = "component_type" not in kw and len(c.args) <= 2
+                    if not (name_ok and active_ok and type_ok and mode_ == want_mode):
+                        bad.append("%s:%d %s(): %s" % (fn_, c.lineno, fdef.name, ast.unparse(c)))
+    ctx.decided("callsites/found", "cover", sites >= 5, witness="%d call sites" % sites)
+    ctx.decided("callsites/ask-for-the-active-array-of-their-own-table-and-stage", "requires@callsite", not bad,
+                witness="; ".join(bad))
